@@ -104,6 +104,8 @@ def replay(prop, path, seed):
         return 2
     f = scratch_file("replay.ndjson")
     write_rows([m["row"]], f)
+    if m.get("replay_sub"):
+        rw = m["replay_sub"]
     sub, *extra = rw.split()
     res, err = run_harness(sub, ["-cases", f, "-seed", rec.get("seed", seed)] + extra, race="-race" in extra)
     os.unlink(f)
@@ -183,6 +185,19 @@ def cacheseq(prop, tier, seed):
         "samples": [sample],
         "checker_cmd": "tlc MCCacheSeq (-config CacheSeq_mc_%s.cfg; generation cfgs; -simulate) + harness replay-cache" % tier,
     }
+    if prop == "C16":
+        # the naming half: generated transient names and the write/refresh/remove cycle under them
+        nm = generic_replay(prop, tier, seed, [("SpecName", "SpecName_quick.cfg" if tier == "quick" else "SpecName_thorough.cfg", {})],
+                            "oracle-specname", "model_checking", "", [])
+        for m in nm["mismatches"]:
+            m["replay_sub"] = "oracle-specname"
+        mine += nm["mismatches"]
+        nc = nm["coverage"]
+        for k in ("states", "transitions", "traces_validated_against_impl", "evaluations", "distinct_nontrivial", "steps_replayed"):
+            cov[k] += nc[k]
+        cov["specname_rows"] = nc["evaluations"]
+        cov["rule"] += "; plus every transient id of <=3/<=5 tokens ('/', '.', '..', '.json', '.yaml', blank, non-ASCII) x 4 kinds (dotted class, class ending in .json/.yaml): generated name, single-component check, WriteSpec tree diff, encoding, precedence after Refresh, RemoveSpec twice"
+        cov["checker_cmd"] += " ; " + nc["checker_cmd"]
     return {"level": "model_checking", "coverage": cov, "mismatches": mine, "replay_with": "replay-cache",
             "n_violations_total": None,
             "assumptions": ["small-scope universe: <=3 directories, <=3 Spec names, 2 devices, 2-3 kinds",
